@@ -201,6 +201,14 @@ FIXED = ['', ' ', '\n\n', 'fragment', 'fragment a', 'fragment a{', 'fragment a{C
          'fragment a{C labeled c1 C labeled c2 double bond to c1 stereo double bond c1 cis to c2 for double bond between c1 and c2}']
 
 
+# the same unknown element asked for several times in one process (atom, bonded atom, constraint, lower-case / aromatic spelling)
+SAME_PROCESS = ['fragment s%d{%s}' % (i, b) for i, b in enumerate([
+    'Qq labeled c1', 'Qq labeled c1', 'qq labeled c1', 'C labeled c1 {connected to Qq}', 'C labeled c1 Qq labeled c2 single bond to c1',
+    'C labeled c1 {connected to >1 qq}', 'Zz labeled c1 Zz labeled c2 single bond to c1', 'zz labeled c1', 'C labeled c1 {! connected to Zz}',
+    'C labeled c1', 'Qq labeled c1'])]
+FIXED += ['fragment a{Qq labeled c1}', 'fragment b{Qq labeled c1}', 'fragment a{qq labeled c1}', 'fragment a{C labeled c1 {connected to Qq}}',
+          'fragment a{C labeled c1 Qq labeled c2 single bond to c1}', 'fragment a{C labeled c1 {connected to >1 qq}}', 'fragment c{Qq labeled c9}',
+          'fragment a{Xx labeled c1}', 'fragment a{C labeled c1 Xx labeled c2 double bond to c1}', 'fragment a{xx labeled c1}', 'fragment d{Xx labeled q}']
 FIXED += ['fragment a{C labeled c1 C labeled c2 single bond to c1}%sjunk' % t for t in TAILS]
 FIXED += ['fragment a{C labeled c1}%s' % t for t in TAILS]
 FIXED += ['fragment a{C labeled c1} %s' % t for t in PUNCT] + ['%s' % t for t in PUNCT] + ['fragment a{C labeled c1 %s}' % t for t in PUNCT]
